@@ -62,6 +62,12 @@ class Layout(object):
         self.cid = fd.creation_ids(self.g, self.created)
         self.inv = {v: k for k, v in self.g.names.items()}
         self.sites = fd.read_sites(self.src)
+        # where every binding is reported to be declared, as a layout-independent identity
+        ident = node_identity(self.src.tree)
+        self.decl_ids = []
+        for _f, nm in self.created:
+            d = getattr(nm, 'declared_at', None)
+            self.decl_ids.append((str(getattr(nm, 'name', '?')), ident(tuple(d)) if d and tuple(d) != (0, 0) else None))
         self.answers = []
         for n in self.sites:
             real = fd.real_answer(self.g, n)
@@ -131,6 +137,24 @@ def locations_of(text, reads, picks):
     return out
 
 
+def assists_of(text, reads, picks):
+    """completion at the end of sampled reads (the request an editor sends while typing)"""
+    from supp.assistant import assist
+    lines = text.split('\n')
+    out = []
+    for k in picks:
+        n = reads[k]
+        if not lines[n.lineno - 1].isascii():
+            out.append('skip')
+            continue
+        try:
+            p, names = assist(fd.project(), text, (n.lineno, n.col_offset + len(n.id)), None)
+            out.append([p, sorted(names)])
+        except Exception as e:
+            out.append('EXC:' + type(e).__name__)
+    return out
+
+
 def lint_of(text, filename):
     from supp.linter import lint
     try:
@@ -144,6 +168,12 @@ def compare(ctx, A, B, nfull):
     diffs = []
     if len(A.sites) != len(B.sites) or len(A.g.flows) != len(B.g.flows) or len(A.created) != len(B.created):
         return [('structure', (len(A.sites), len(A.g.flows), len(A.created)), (len(B.sites), len(B.g.flows), len(B.created)))]
+    if A.decl_ids != B.decl_ids:
+        k = next(i for i in range(len(A.decl_ids)) if A.decl_ids[i] != B.decl_ids[i])
+        nmA = A.created[k][1]
+        nmB = B.created[k][1]
+        diffs.append(('declared_at', A.decl_ids[k][0], tuple(getattr(nmA, 'declared_at', ())), tuple(getattr(nmB, 'declared_at', ())),
+                      str(A.decl_ids[k][1]), str(B.decl_ids[k][1])))
     for k, (a, b) in enumerate(zip(A.answers, B.answers)):
         if a[0] != b[0] or a[2] != b[2] or A.canon(a[3]) != B.canon(b[3]):
             diffs.append(('read', k, a[2], a[1], b[1], A.canon(a[3]), B.canon(b[3])))
@@ -239,6 +269,16 @@ def run(ctx):
                                   'starred argument resolves differently in the ast.unparse layout (input: corpus/C13/known_%s.json)' % KNOWN_ID)
         except fd.DumpError as e:
             ctx.notes.append('known finding not re-run, dumper failed closed: %s' % e)
+    kf74 = os.path.join(cdir, 'known_F74.json')
+    if os.path.exists(kf74):
+        k74 = json.load(open(kf74))
+        t74 = ast.parse(k74['source'])
+        r74 = [n for n in ast.walk(t74) if isinstance(n, ast.Name) and isinstance(n.ctx, ast.Load)]
+        u74 = fd.unparse_form(t74)
+        rb74 = [n for n in ast.walk(ast.parse(u74)) if isinstance(n, ast.Name) and isinstance(n.ctx, ast.Load)]
+        if assists_of(k74['source'], r74, range(len(r74))) != assists_of(u74, rb74, range(len(rb74))):
+            ctx.known_finding('F74', 'completion at the end of the last name of an assignment value offers the target; with a keyword '
+                              'written before a starred argument the layout and its ast.unparse form differ (input: corpus/C13/known_F74.json)')
     for i, p in enumerate(fd.HAND_PROGRAMS):
         programs.append(('hand%d.py' % i, p))
     for i in range(ctx.pick(70, 600)):
@@ -291,6 +331,8 @@ def run(ctx):
         reads0 = [n for n in ast.walk(tree) if isinstance(n, ast.Name) and isinstance(n.ctx, ast.Load)]
         picks = sorted(ctx.rng.sample(range(len(reads0)), min(len(reads0), ctx.pick(3, 8) if real_file else ctx.pick(6, 14))))
         locA = locations_of(text, reads0, picks) if len(text) < 60000 else None
+        apicks = picks[:ctx.pick(4, 8)]
+        asA = assists_of(text, reads0, apicks) if len(text) < 60000 and not fd.kw_before_star(tree) else None
         for kind, vt in variants:
             if vt is None:
                 nprinter_fail += 1
@@ -309,6 +351,16 @@ def run(ctx):
                     k = bad_k[0]
                     diffs.append(('location', reads0[picks[k]].id, (reads0[picks[k]].lineno, reads0[picks[k]].col_offset),
                                   (readsB[picks[k]].lineno, readsB[picks[k]].col_offset), str(locA[k])[:120], str(locB[k])[:120]))
+            if asA is not None:
+                readsB2 = [n for n in ast.walk(ast.parse(vt)) if isinstance(n, ast.Name) and isinstance(n.ctx, ast.Load)]
+                asB = assists_of(vt, readsB2, apicks)
+                bad_a = [i for i in range(len(apicks)) if asA[i] != asB[i] and 'skip' not in (asA[i], asB[i])]
+                if bad_a:
+                    i = bad_a[0]
+                    da = [x for x in (asA[i][1] if isinstance(asA[i], list) else [asA[i]]) if x not in (asB[i][1] if isinstance(asB[i], list) else [asB[i]])]
+                    db = [x for x in (asB[i][1] if isinstance(asB[i], list) else [asB[i]]) if x not in (asA[i][1] if isinstance(asA[i], list) else [asA[i]])]
+                    diffs.append(('assist', reads0[apicks[i]].id, (reads0[apicks[i]].lineno, reads0[apicks[i]].col_offset),
+                                  (readsB2[apicks[i]].lineno, readsB2[apicks[i]].col_offset), da[:6], db[:6]))
             if lintA != lintB:
                 diffs.append(('lint', [x for x in (lintA if isinstance(lintA, list) else [lintA]) if x not in (lintB if isinstance(lintB, list) else [lintB])][:5],
                               [x for x in (lintB if isinstance(lintB, list) else [lintB]) if x not in (lintA if isinstance(lintA, list) else [lintA])][:5]))
